@@ -31,7 +31,8 @@ pub fn fen(n_games: u64) {
     let out = std::io::stdout(); let mut out = std::io::BufWriter::new(out.lock());
     let rs = roots();
     for g in 0..n_games {
-        let mut b = if (g as usize) < rs.len() { rs[g as usize] } else { *rng.pick(&rs) };
+        let gi = (g as usize) * nshards() + shard();
+        let mut b = if gi < rs.len() { rs[gi] } else { *rng.pick(&rs) };
         let mut dp: Option<usize> = None;
         // a root given with an ep flag: the passed-over square is known from the flag
         if let Some(e) = b.en_passant() { dp = Some(e.ubackward(!b.side_to_move()).to_index()); }
